@@ -138,6 +138,34 @@ func (c C11) runSubscriptions(t *tape.Tape, opt core.RunOpt) (res core.Result) {
 	printed0 := printedBlocks(exe)
 	n := 2 + t.Draw(3)
 	for sid := 1; sid <= n; sid++ {
+		if sid > 1 && t.Bool(1, 3) {
+			// an attempt the subscription resolver refuses (unknown subscriber):
+			// whatever it touched on the parsed document must not reach the
+			// subscribers registered through it before
+			_, ra := wa.Root.ResolveExecutable(exe, op, map[string]interface{}{"sid": 99})
+			fr, ferr := wb.Root.ParseExecutableString(src)
+			if ferr != nil {
+				res.Fatal = ferr.Error()
+				return
+			}
+			_, rb := wb.Root.ResolveExecutable(fr, op, map[string]interface{}{"sid": 99})
+			hist = append(hist, fmt.Sprintf("refused attempt (unknown subscriber 99) -> err=%v (fresh parse: err=%v)", ra != nil, rb != nil))
+			if (ra == nil) != (rb == nil) {
+				res.Violate("C11", "subscription_re_resolve_differs", fmt.Sprintf("refused subscription attempt: error %v, on a freshly parsed copy: %v\ndocument:\n%s", ra, rb, src), nil)
+				return
+			}
+			ev := 500 + sid
+			envA.log, envB.log = envA.log[:0], envB.log[:0]
+			ca, pa := wa.Publish(topic, ev)
+			cb, pb := wb.Publish(topic, ev)
+			da, db := fmt.Sprint(envA.log), fmt.Sprint(envB.log)
+			hist = append(hist, fmt.Sprintf("publish(%q, %d) -> count=%d err=%v deliveries=%s", topic, ev, ca, pa != nil, da))
+			if ca != cb || (pa == nil) != (pb == nil) || da != db {
+				res.Violate("C11", "subscription_deliveries_differ_after_re_resolve",
+					fmt.Sprintf("one parsed subscription document: %d subscribers registered, then an attempt the resolver refused, then publish(%q, event %d):\n  count=%d err=%v deliveries %s\nwith a fresh parse per call:\n  count=%d err=%v deliveries %s\ndocument:\n%s", sid-1, topic, ev, ca, pa, da, cb, pb, db, src), nil)
+				return
+			}
+		}
 		for _, w := range []*workload.SubWorld{wa, wb} {
 			w.AddSub(&workload.SimSub{ID: sid, Topic: topic, SelIndex: sel})
 		}
